@@ -3,9 +3,24 @@
 package badger
 
 import (
+	"os"
+
 	"github.com/dgraph-io/badger/v4/vhook"
 	"github.com/dgraph-io/ristretto/v2/z"
 )
+
+func init() {
+	// Report MANIFEST fsyncs through the existing syncFunc seam, so that the
+	// report is tied to the call actually being made.
+	orig := syncFunc
+	syncFunc = func(f *os.File) error {
+		err := orig(f)
+		if err == nil {
+			vhook.IO("fsync", f.Name(), 0, 0)
+		}
+		return err
+	}
+}
 
 // verifDoWritesChoice is used only under simulation. When more than one case
 // of the doWrites select is ready, it lets the simulator pick the branch
